@@ -111,7 +111,7 @@ func genRespSchema(t *rapid.T) *tm.Universe {
 	u.Structs = append(u.Structs, tm.StructDef{Name: "Resp", Fields: fields})
 	// nested structs: the level directly below the response struct is mapped too, deeper levels are not
 	inner := tm.StructDef{Name: "RInner", Fields: []tm.FieldDef{
-		{ID: 1, Name: "h", T: &tm.Type{K: tm.STRING}, Annos: []tm.Anno{{Key: "api.header", Val: "Inner-H"}}},
+		{ID: 1, Name: "h", T: &tm.Type{K: tm.STRING}, Req: []int{tm.ReqDefault, tm.ReqRequired}[rapid.IntRange(0, 1).Draw(t, "innerHReq")], Annos: []tm.Anno{{Key: "api.header", Val: "Inner-H"}}},
 		{ID: 2, Name: "n", T: &tm.Type{K: tm.I32}, Req: tm.ReqOptional},
 		{ID: 3, Name: "d", T: &tm.Type{K: tm.STRUCT, Ref: "RDeep"}, Req: tm.ReqOptional}}}
 	u.Structs = append(u.Structs, inner)
